@@ -467,11 +467,37 @@ theorem prog_evo (cfg : Config) (op : Op R) (hop : isProviderOp op = false)
 /-- no transaction lowers a generation or reuses an id (`GenLe` of C10) -/
 def QGenLe (s s' : DB R) : Prop := Ids s.gcore → GenLe s.gcore s'.gcore
 
+/-- PUT /resource_providers/{u}: the look-up changes nothing, the write is `updateProvider` -/
+theorem pRpUpdate_genLe (mv u n : Nat) (p : Option (Option Nat)) : All QGenLe (pRpUpdate (R := R) mv u n p) := by
+  refine All.txn' _ _ (fun db => ?_)
+  unfold tRpUpdateR
+  split
+  · exact ⟨fun hI => GenLe.refl hI, .done _⟩
+  · split
+    · exact ⟨fun hI => GenLe.refl hI, .done _⟩
+    · refine ⟨fun hI => GenLe.refl hI, All.txn' _ _ (fun db' => ?_)⟩
+      unfold tRpUpdateW
+      split
+      · next h => exact ⟨fun hI => genLe_update h hI, .done _⟩
+      · exact ⟨fun hI => GenLe.refl hI, .done _⟩
+
+/-- DELETE /resource_providers/{u}: the look-up changes nothing, the write is `deleteProvider` -/
+theorem pRpDelete_genLe (u : Nat) : All QGenLe (pRpDelete (R := R) u) := by
+  refine All.txn' _ _ (fun db => ?_)
+  unfold tRpDeleteR
+  split
+  · exact ⟨fun hI => GenLe.refl hI, .done _⟩
+  · refine ⟨fun hI => GenLe.refl hI, All.txn' _ _ (fun db' => ?_)⟩
+    unfold tRpDeleteW
+    split
+    · next h => exact ⟨fun hI => genLe_delete h hI, .done _⟩
+    · exact ⟨fun hI => GenLe.refl hI, .done _⟩
+
 theorem gens_monotone_all (cfg : Config) (op : Op R) : All QGenLe (prog cfg op) := by
   by_cases hop : isProviderOp op = true
-  · have : ∀ op' : Op R, isProviderOp op' = true → All QGenLe (.txn .other (stepTxn cfg op')) := fun op' _ =>
+  · have : ∀ (l : Lbl) (op' : Op R), All QGenLe (.txn l (stepTxn cfg op')) := fun l op' =>
       All.txn' _ _ (fun db => ⟨fun hI => step_genLe cfg hI op', .done _⟩)
-    cases op <;> first | exact this _ hop | simp [isProviderOp] at hop
+    cases op <;> first | exact this _ _ | exact pRpUpdate_genLe _ _ _ _ | exact pRpDelete_genLe _ | simp [isProviderOp] at hop
   · have := prog_evo (N := fun _ => True) cfg op (by simpa using hop) (fun _ _ => trivial)
     exact this.mono (fun s s' h hI => (h hI).frame.genLe)
 
